@@ -123,6 +123,26 @@ def run(ctx, chk):
         chk.require(len(fb) >= 2 and all("FromPrimitive" in (b.raw.get("x") or "") for b in fb), "C20/from-u8-derived",
                     "ErrorMessages::from_u8", "FromPrimitive for ErrorMessages is not the derived implementation", "derived",
                     nontrivial=False)
+    # the message is how read_card (and every `other => bail!("...{other}")` arm) identifies the code to the caller: one
+    # message arm per table entry - two codes sharing an arm are indistinguishable afterwards
+    disp = [b for b in zvt.bodies.values() if b.raw.get("impl_trait") == "core::fmt::Display" and b.raw["defkind"] == "AssocFn" and
+            ty_str(b.raw.get("impl_self")) == "zvt::constants::ErrorMessages"]
+    if chk.require(len(disp) == 1 and em is not None, "C20/message-per-code", "Display for ErrorMessages", "Display impl not found", "",
+                   nontrivial=False):
+        db = disp[0]
+        sws = [db.blocks[i]["term"] for i in sorted(db.reachable(0)) if db.blocks[i]["term"]["t"] == "switch"]
+        first = sws[0] if sws else None
+        names = {v_.get("discr", k_): v_["name"] for k_, v_ in enumerate(em["variants"])}
+        shared = {}
+        if first is not None:
+            for val, tb in first["targets"]:
+                shared.setdefault(tb, []).append(names.get(val, "?%s" % val))
+        dup = sorted(v_ for v_ in shared.values() if len(v_) > 1)
+        covered = sum(len(v_) for v_ in shared.values())
+        chk.require(first is not None and not dup and covered >= len(em["variants"]) - 1, "C20/message-per-code", "Display for ErrorMessages",
+                    "result codes share one message arm: %s (or %d of %d codes have no arm of their own)" % (dup[:3], len(em["variants"]) - covered,
+                                                                                                          len(em["variants"])),
+                    "one message per code", db.sp())
     chk.floor("abort arms analysed", n_arms, 7)
     chk.floor("non-final reply arms checked for early success", n_complete, 4)
     nested(chk, crate)
